@@ -1,5 +1,6 @@
 import Starcal.RaceA
 import Starcal.Gen.LockSeq
+import Starcal.Gen.LockSkel
 import Std.Data.HashSet
 /-! Driver side of the lock streams (C16, C17): dump of the regenerated sequences, the static
     discipline per entry, and an explicit-state search of the MODEL for a deadlock schedule (used only
@@ -65,6 +66,7 @@ partial def findDeadlock (init : List Thread) (limit : Nat) : Option (List Nat) 
 def locksRequest (toks : List String) : String :=
   match toks with
   | ["seqs"] => ";".intercalate (Gen.lockSeqs.map (fun e => s!"{e.1}:{e.2.1}:{showActs e.2.2}"))
+  | ["skels"] => ";".intercalate (Gen.lockSkels.map (fun e => s!"{e.1}:{e.2.1}:{showActs e.2.2}"))
   | ["disc"] => ";".intercalate (Gen.lockSeqs.map (fun e => s!"{e.1}:{e.2.1}:{if disc [] e.2.2 then 1 else 0}"))
   | ["disc1", prog] =>
     match (prog.splitOn ",").mapM parseAct with
